@@ -484,6 +484,11 @@ static model::Loc gen_loc(Src& s, bool allow_bad) {
 static std::vector<model::NodeRef> gen_list(Src& s, bool allow_bad, size_t min_len) {
     std::vector<model::NodeRef> refs;
     size_t n = min_len + s.size(40);
+    if (s.chance(1, 10)) {  // long lists: the element counts of the binary formats and the text buffers have to keep up
+        static const size_t longer[] = {99, 100, 101, 127, 128, 129, 255, 256, 257, 1000, 2000, 5000};
+        n = s.chance(1, 2) ? longer[s.draw(sizeof(longer) / sizeof(longer[0]))] : 100 + s.draw(400);
+        if (s.chance(3, 4)) allow_bad = false;  // (one bad location anywhere makes the whole geometry an error)
+    }
     model::Loc prev = gen_loc(s, allow_bad);
     for (size_t i = 0; i < n; ++i) {
         model::Loc l = (i > 0 && s.chance(1, 3)) ? prev : gen_loc(s, allow_bad);  // runs of duplicates at start, middle and end
@@ -668,7 +673,7 @@ VP_BUILTIN(F20_leading_undefined_location) {
     }
 }
 
-VP_MAIN(prop, "generated node lists (length 0..42 with runs of duplicate locations at start/middle/end, undefined and invalid locations at any index) and areas (0..4 outer rings each with 0..3 "
+VP_MAIN(prop, "generated node lists (length 0..42, one in ten 99..5000, with runs of duplicate locations at start/middle/end, undefined and invalid locations at any index) and areas (0..4 outer rings each with 0..3 "
               "inner rings) x {unique, all} x {forward, backward} x {identity, Web-Mercator} x precision 0..17 x {WKB, EWKB} x {binary, hex} x {WKT, EWKT} x GeoJSON, several operations per "
               "factory object (state leakage after exceptions); oracle: harness decoders for WKB/WKT/GeoJSON recover the point sequences, expected sequence from the model (dedupe, reverse, "
               "ring grouping), WKB doubles bit-exact, text numbers equal an exact __int128 round-half-even decimal expansion of the double; degenerate inputs must throw geometry_error / "
